@@ -94,6 +94,15 @@ Theorem C19_map_cxr : forall ext a path (annots : list bytes) code,
 Proof. exact map_cxr_macro. Qed.
 Print Assumptions C19_map_cxr.
 
+(* every name the model of expand_macro accepts (with whatever annotations and arguments) belongs to one of the
+   families above: a fixed name, prefix+operator, D I^n P / D U^n P (n >= 2), a name matched by P[PAI]{3,}R or
+   UN P[PAI]{3,}R (the well-formed ones are exactly [pair_name (N l r)], see C19_pair_tree; the others have no
+   reference meaning), C[AD]{2,}R, SET_C[AD]+R, MAP_C[AD]+R *)
+Theorem C19_accepted_names_classified : forall name (annots : list bytes) (args : list node) code,
+  expand name annots args = Some code -> macro_name name.
+Proof. exact expand_classified. Qed.
+Print Assumptions C19_accepted_names_classified.
+
 (* non-vacuity / sanity *)
 Example C19_ex_names :
   pair_name (N (N L L) (N L L)) = "PPAIPAIR"%string /\ unpair_name (N L (N L L)) = "UNPAPAIR"%string /\
